@@ -179,6 +179,19 @@ Proof.
 Qed.
 Print Assumptions C13_tri_children_tile_parent.
 
+(* the same with the measure-theoretic step as an explicit hypothesis: under the tiling principle the children of every class
+   (rest / red / blue1 / blue2 / green) cover their parent, and the two children of a tetrahedral bisection cover theirs *)
+Theorem C13_children_tile_parent_given_principle :
+  (forall Covers, tri_tiling_principle Covers -> forall b, In b gen_split_blocks -> Covers (map triW (snd b))) /\
+  (forall Covers, tet_tiling_principle Covers -> Covers (map tetW gen_tet_bisect)).
+Proof.
+  split.
+  - intros Covers HP b Hb. pose proof tiles_ok as H. rewrite forallb_forall in H.
+    exact (tri_tiles_cover Covers triW (snd b) HP (H b Hb)).
+  - intros Covers HP. exact (tet_tiles_cover Covers tetW gen_tet_bisect HP tet_bisect_ok).
+Qed.
+Print Assumptions C13_children_tile_parent_given_principle.
+
 (* tetrahedra (partial): ONE longest-edge bisection tiles its parent; the work-list loop is not proved *)
 Theorem C13_tet_bisection_tiles_parent_partial :
   (forall tpl, In tpl gen_tet_bisect ->
